@@ -10,14 +10,17 @@ package server
 
 //@ func malformedBodyError
 //@   property C09
+//@   ensures !isnil(result)
 //@   ensures deref(result).StatusCode == 400 && deref(result).Code == "malformed_body" && deref(result).Message == errs.message(err)
 
 //@ func provingError
 //@   property C09
+//@   ensures !isnil(result)
 //@   ensures deref(result).StatusCode == 400 && deref(result).Code == "proving_error" && deref(result).Message == errs.message(err)
 
 //@ func unexpectedError
 //@   property C09
+//@   ensures !isnil(result)
 //@   ensures deref(result).StatusCode == 500 && deref(result).Code == "unexpected_error" && deref(result).Message == errs.message(err)
 
 //@ func (*Error) MarshalJSON
